@@ -203,6 +203,7 @@ func runC01(c *Ctx) {
 	spanLineRules(c, p)
 	checkContainmentTie(c, p)
 	checkJoinLoopsComplete(c, p)
+	checkRunLiterals(c, p)
 }
 
 // checkThresholdAndQ: R01.2. The threshold a caller configures is the one stored and compared with, q is derived from it,
@@ -283,6 +284,43 @@ func checkJoinLoopsComplete(c *Ctx, p *core.Prog) {
 		}
 	}
 	c.R.RequireMin("R01.5", "join / scoring loops", n, 2)
+}
+
+// checkRunLiterals: R01.7. A run of dense windows starts with one window: every run that the run detector creates spans
+// from a window start to that start plus q (a run created with no end is empty if no further window extends it, and the
+// range it stands for is never proposed).
+func checkRunLiterals(c *Ctx, p *core.Prog) {
+	dr := p.Func(v2pkg, "(*Classifier).detectRuns")
+	if !c.R.Anchor(dr != nil, "v2.(*Classifier).detectRuns") {
+		return
+	}
+	n := 0
+	for _, f := range pkgClosure(dr, v2pkg) {
+		for _, lit := range structLits([]*ssa.Function{f}, "/v2.matchRange") {
+			st, en := lit.fields["SrcStart"], lit.fields["SrcEnd"]
+			if st == nil && en == nil {
+				continue
+			}
+			n++
+			ok := st != nil && en != nil
+			why := "SrcStart or SrcEnd is left at zero"
+			if ok {
+				d := core.LinOf(en, nil).Add(core.LinOf(st, nil), -1)
+				nz := 0
+				var sym string
+				for k, cf := range d.Coef {
+					if cf != 0 {
+						nz++
+						sym = k
+					}
+				}
+				ok = nz == 1 && d.Const == 0 && d.Coef[sym] == 1
+				why = "SrcEnd - SrcStart is " + d.String() + ", not the window length"
+			}
+			c.R.Check(ok, "R01.7", core.ShortFn(f)+": a new run spans one window (SrcEnd = SrcStart + q)", p.Pos(lit.alloc.Pos()), "both bounds are set, one window apart", why+": a run that no later window extends stays empty and the copy that lies there is never proposed for scoring")
+		}
+	}
+	c.R.RequireMin("R01.7", "run literals of the run detector", n, 1)
 }
 
 // checkContainmentTie: R01.4. Two corpus documents with the same words (one text registered under two names, a user's
@@ -615,6 +653,38 @@ func runC02(c *Ctx) {
 	spanLineRules(c, p)
 	checkLineCounter(c, p, "R03.9")
 	checkConfidenceFormula(c, p)
+
+	// R02.5: the distance that scoreDiffs hands back is the word distance of the diff it was given, as computed - or one of
+	// its constant verdicts. Nothing is taken off it afterwards (a "tolerated" difference that is forgiven in the distance
+	// is a difference the confidence no longer shows).
+	if sdf := sd.Call.StaticCallee(); sdf != nil && len(sdf.Blocks) > 0 {
+		nRet, bad := 0, ""
+		for _, b := range sdf.Blocks {
+			ret, ok := b.Instrs[len(b.Instrs)-1].(*ssa.Return)
+			if !ok || len(ret.Results) != 1 {
+				continue
+			}
+			nRet++
+			r := ret.Results[0]
+			if _, isC := r.(*ssa.Const); isC {
+				continue
+			}
+			call, isCall := r.(*ssa.Call)
+			okD := false
+			if isCall {
+				if g := call.Call.StaticCallee(); g != nil && core.FuncPkgPath(g) == v2pkg && len(call.Call.Args) == 1 {
+					if prm, isP := core.Unspill(call.Call.Args[0]).(*ssa.Parameter); isP && prm.Parent() == sdf {
+						okD = true
+					}
+				}
+			}
+			if !okD {
+				bad = p.Pos(ret.Pos())
+			}
+		}
+		c.R.Check(bad == "" && nRet > 0, "R02.5", "scoreDiffs returns the word distance of its diffs unchanged, or a constant verdict", p.Pos(sdf.Pos()),
+			fmt.Sprintf("%d returns: constants or the distance function applied to the diffs parameter", nRet), "the value returned at "+bad+" is computed from the distance (something is added to or taken off it): the confidence then no longer is 1 - distance/|K|")
+	}
 }
 
 // checkConfidenceFormula: R02.4. The confidence is 1 - distance/|K| computed in floating point. Every non-constant result of
